@@ -173,7 +173,7 @@ class Repo:
             if ch:
                 fi.node = fi.raw_node = node
                 self.desugared.append(fi.fq)
-            node, ch = normalize_function(fi.raw_node, self._sig_resolver(fi), self._list_attrs(fi.cls))
+            node, ch = normalize_function(fi.raw_node, self._sig_resolver(fi), self._list_attrs(fi.cls), self._mod_consts(fi), self._cls_consts(fi.cls))
             if ch:
                 fi.node = fi.raw_node = node
                 self.normalized.append(fi.fq)
@@ -196,7 +196,7 @@ class Repo:
             if fi.fq in expanded:
                 # the spliced bodies introduce new aliases / named conditions: normalise again
                 node, _ch = desugar(expanded[fi.fq], self.modules[fi.module].globals_assigned)
-                node, _ch = normalize_function(node, self._sig_resolver(fi), self._list_attrs(fi.cls))
+                node, _ch = normalize_function(node, self._sig_resolver(fi), self._list_attrs(fi.cls), self._mod_consts(fi), self._cls_consts(fi.cls))
                 # spliced helper bodies carry the helper's line numbers: give the function synthetic,
                 # monotone positions (document order) for the rules that order statements, and keep
                 # the real line for messages
@@ -247,6 +247,51 @@ class Repo:
                     changed = True
         for fq in absorbed:
             by_fq[fq].absorbed = True
+
+    def _mod_consts(self, fi):
+        """private module-level names bound once to a number / string literal (_MINIMIZE = 1), not shadowed
+        by a parameter or local of the function"""
+        mod = self.modules[fi.module]
+        if not hasattr(mod, '_lit_consts'):
+            counts = {}
+            for n in mod.tree.body:
+                if isinstance(n, ast.Assign):
+                    for t in n.targets:
+                        if isinstance(t, ast.Name):
+                            counts[t.id] = counts.get(t.id, 0) + 1
+            mod._lit_consts = {}
+            for k, v in mod.globals_assigned.items():
+                if counts.get(k) == 1 and k.startswith('_') and not k.startswith('__'):
+                    vv = v.operand if isinstance(v, ast.UnaryOp) and isinstance(v.op, (ast.USub, ast.UAdd)) else v
+                    if isinstance(vv, ast.Constant) and isinstance(vv.value, (int, float, str)) and \
+                            not isinstance(vv.value, bool):
+                        mod._lit_consts[k] = v
+        if not mod._lit_consts:
+            return {}
+        local = {a.arg for a in fi.raw_node.args.posonlyargs + fi.raw_node.args.args + fi.raw_node.args.kwonlyargs}
+        for n in ast.walk(fi.raw_node):
+            if isinstance(n, ast.Name) and isinstance(n.ctx, (ast.Store, ast.Del)):
+                local.add(n.id)
+        return {k: v for k, v in mod._lit_consts.items() if k not in local}
+
+    def _cls_consts(self, ci):
+        """private class-level literal constants, read as self._X"""
+        if ci is None:
+            return {}
+        out = {}
+        for c in reversed(self.mro(ci)):
+            for k, v in c.class_attrs.items():
+                vv = v.operand if isinstance(v, ast.UnaryOp) and isinstance(v.op, (ast.USub, ast.UAdd)) else v
+                if k.startswith('_') and not k.startswith('__') and isinstance(vv, ast.Constant) and \
+                        isinstance(vv.value, (int, float, str)) and not isinstance(vv.value, bool):
+                    out[k] = v
+        # not if some method assigns self._X
+        for c in self.mro(ci):
+            for m in c.methods.values():
+                for n in ast.walk(m.raw_node):
+                    if isinstance(n, ast.Attribute) and isinstance(n.ctx, ast.Store) and n.attr in out:
+                        out.pop(n.attr, None)
+        return out
 
     def _list_attrs(self, ci):
         """attributes that every __init__ / reset of the class hierarchy binds to a list display"""
